@@ -8,6 +8,6 @@ A = 'Crypto.Util.asn1.'
 
 def units(tier):
     us = []
-    for t in ['BytesIO_EOF.read', 'BytesIO_EOF.read_byte', 'DerObject._decodeLen']:
+    for t in ['BytesIO_EOF.read', 'BytesIO_EOF.read_byte', 'DerObject._decodeLen', 'DerObject._decodeFromStream', 'DerObject.decode']:
         us.append(pyvc_unit('C13', 'asn1.' + t, asn1.registry, [A + t]))
     return us
